@@ -66,7 +66,7 @@ def build_instantiate(eng, bounds, spec):
     req['executors'] = [S('req.executor%d' % k) for k in range(spec['n_exec'])]
     req['ask_attrs'] = [S('req.ask_attr%d' % k) for k in range(spec['n_attr'])]
     req['bid_attrs'] = [S('req.bid_attr%d' % k) for k in range(spec['n_attr'])]
-    req['P'] = I('req.precision', 0, 41)
+    req['P'] = I('req.precision', 0, 2 ** 40)        # beyond u32 as well: `as u32` casts wrap
     req['I'] = I('req.increment', 0, 10 ** 24)
     msg = ti.mk('InstantiateMsg', name=req['name'], base_denom=req['base_denom'], convertible_base_denoms=req['conv'], supported_quote_denoms=req['quotes'],
                 approvers=req['approvers'], executors=req['executors'], ask_fee_rate=vals['ask_fee_rate'], ask_fee_account=vals['ask_fee_account'],
@@ -130,13 +130,15 @@ def add_v2_bid(sc, events, idx):
     for k, (variant, hasfee) in enumerate(events):
         ep = '%s.ev%d' % (px, k)
         amt = lambda n: sc.i(ep + '.' + n, 0, B)
-        fee = some(Coin(quote, amt('fee'))) if hasfee else NONE()
+        # every coin of an event carries its own (symbolic) denomination: the sums of the statement are over amounts
+        ev_base, ev_quote, ev_fee = sc.s(ep + '.base_denom'), sc.s(ep + '.quote_denom'), sc.s(ep + '.fee_denom')
+        fee = some(Coin(ev_fee, amt('fee'))) if hasfee else NONE()
         if variant == 'Fill':
-            act = ti.mk('Action', 'Fill', base=Coin(based, amt('base')), fee=fee, price=sc.s(ep + '.price'), quote=Coin(quote, amt('quote')))
+            act = ti.mk('Action', 'Fill', base=Coin(ev_base, amt('base')), fee=fee, price=sc.s(ep + '.price'), quote=Coin(ev_quote, amt('quote')))
         elif variant == 'Refund':
-            act = ti.mk('Action', 'Refund', fee=fee, quote=Coin(quote, amt('quote')))
+            act = ti.mk('Action', 'Refund', fee=fee, quote=Coin(ev_quote, amt('quote')))
         else:
-            act = ti.mk('Action', 'Reject', base=Coin(based, amt('base')), fee=fee, quote=Coin(quote, amt('quote')))
+            act = ti.mk('Action', 'Reject', base=Coin(ev_base, amt('base')), fee=fee, quote=Coin(ev_quote, amt('quote')))
         evs.append(ti.mk('Event', action=act, block_info=Adt('BlockInfo', None, [sc.i(ep + '.height', 0, 2 ** 63), Adt('Timestamp', None, [sc.i(ep + '.time', 0, 2 ** 63)])])))
         rec_events.append(dict(variant=variant, hasfee=hasfee, base=sc.sym.get(ep + '.base'), quote=sc.sym[ep + '.quote'], fee=sc.sym.get(ep + '.fee')))
     hasfee = len(events) % 2 == 1 or any(h for _, h in events)
